@@ -57,3 +57,10 @@ Definition enc_oval (v : oval) : list Z :=
   | VDict d => Z.of_nat (List.length d) :: flat_map (fun kv => [fst kv; snd kv]) d
   end.
 Definition enc_obs (o : obs) : list Z := flat_map (fun p => enc_oval (snd p)) o.
+
+(* checksum of a table of integers: the harness compares checksums and asks for the full
+   table only when they differ (printing large terms is the slow part of an evaluation) *)
+Definition ck_P : Z := 2305843009213693951.
+Definition cksum_row (acc : Z) (row : list Z) : Z :=
+  fold_left (fun a z => (a * 1000003 + z + 7) mod ck_P) row ((acc * 31 + 1) mod ck_P).
+Definition cksum (l : list (list Z)) : Z := fold_left cksum_row l 17.
